@@ -161,3 +161,77 @@ pub proof fn axiom_gcd_int_is_euclid(a: int, b: int) ensures gcd_int(a, b) == gc
 pub fn isize_gcd(n1: isize, n2: isize) -> (r: Option<isize>)
     ensures r matches Some(g) ==> g == gcd_spec(n1 as int, n2 as int)
 { unimplemented!() }
+
+// ---- float-valued evaluation (C02)
+pub uninterp spec fn f_sin(a: f64) -> f64;  pub uninterp spec fn f_cos(a: f64) -> f64;  pub uninterp spec fn f_tan(a: f64) -> f64;
+pub uninterp spec fn f_asin(a: f64) -> f64; pub uninterp spec fn f_acos(a: f64) -> f64; pub uninterp spec fn f_atan(a: f64) -> f64;
+pub uninterp spec fn f_exp(a: f64) -> f64;  pub uninterp spec fn f_log(a: f64, base: f64) -> f64; pub uninterp spec fn f_sqrt(a: f64) -> f64;
+pub uninterp spec fn f_fract(a: f64) -> f64; pub uninterp spec fn f_trunc(a: f64) -> f64; pub uninterp spec fn f_floor(a: f64) -> f64;
+pub uninterp spec fn f_powf(a: f64, b: f64) -> f64; pub uninterp spec fn f_atan2(a: f64, b: f64) -> f64;
+pub uninterp spec fn f_ne(a: f64, b: f64) -> bool;     // IEEE `!=`
+pub uninterp spec fn f_const_e() -> f64;
+pub assume_specification [<f64>::sin] (a: f64) -> (r: f64) ensures r == f_sin(a);
+pub assume_specification [<f64>::cos] (a: f64) -> (r: f64) ensures r == f_cos(a);
+pub assume_specification [<f64>::tan] (a: f64) -> (r: f64) ensures r == f_tan(a);
+pub assume_specification [<f64>::asin] (a: f64) -> (r: f64) ensures r == f_asin(a);
+pub assume_specification [<f64>::acos] (a: f64) -> (r: f64) ensures r == f_acos(a);
+pub assume_specification [<f64>::atan] (a: f64) -> (r: f64) ensures r == f_atan(a);
+pub assume_specification [<f64>::exp] (a: f64) -> (r: f64) ensures r == f_exp(a);
+pub assume_specification [<f64>::log] (a: f64, b: f64) -> (r: f64) ensures r == f_log(a, b);
+pub assume_specification [<f64>::sqrt] (a: f64) -> (r: f64) ensures r == f_sqrt(a);
+pub assume_specification [<f64>::fract] (a: f64) -> (r: f64) ensures r == f_fract(a);
+pub assume_specification [<f64>::trunc] (a: f64) -> (r: f64) ensures r == f_trunc(a);
+pub assume_specification [<f64>::floor] (a: f64) -> (r: f64) ensures r == f_floor(a);
+pub assume_specification [<f64>::powf] (a: f64, b: f64) -> (r: f64) ensures r == f_powf(a, b);
+pub assume_specification [<f64>::atan2] (a: f64, b: f64) -> (r: f64) ensures r == f_atan2(a, b);
+
+pub open spec fn ferr(r: Result<f64, MachineStubGen>, f: Formal) -> bool { r matches Err(e) && e.formal() == f }
+// result_F (9.1.4.2): the value if finite, else the evaluation error
+pub open spec fn lift_f(c: Result<f64, EvalError>, r: Result<f64, MachineStubGen>) -> bool {
+    match c { Ok(z) => r == Ok::<f64, MachineStubGen>(z), Err(e) => ferr(r, Formal::Eval(e)) }
+}
+pub open spec fn unary_res(r: Result<f64, MachineStubGen>, n: Number, g: spec_fn(f64) -> f64) -> bool {
+    match classify_spec(flt(n)) { Err(e) => ferr(r, Formal::Eval(e)), Ok(x) => lift_f(classify_spec(g(x)), r) }
+}
+pub open spec fn is_zero_n(n: Number) -> bool {
+    match n { Number::Float(OrderedFloat(f)) => f_is_zero(f), Number::Rational(p) => q_sign(p.view()) == 0, _ => ival(n) == 0 }
+}
+pub open spec fn is_neg_n(n: Number) -> bool {
+    match n { Number::Float(OrderedFloat(f)) => f_lt_zero(f), Number::Rational(p) => q_sign(p.view()) < 0, _ => ival(n) < 0 }
+}
+// operand conversion in a float-valued binary operation: exact operands are converted and
+// classified, float operands are taken as they are
+pub open spec fn conv(n: Number) -> Result<f64, EvalError> { if n is Float { Ok(flt(n)) } else { classify_spec(flt(n)) } }
+pub open spec fn div_f_spec(a: f64, b: f64) -> Result<f64, EvalError> {
+    if f_is_zero(b) { Err(EvalError::ZeroDivisor) } else { classify_spec(f_div(a, b)) }
+}
+pub open spec fn number_div_spec(a: Number, b: Number) -> Result<f64, EvalError> {
+    match conv(a) { Err(e) => Err(e), Ok(x) => match conv(b) { Err(e) => Err(e), Ok(y) => div_f_spec(x, y) } }
+}
+#[verifier::external_body]
+pub fn div_f(a: f64, b: f64) -> (r: Result<OrderedFloat<f64>, EvalError>)
+    ensures match div_f_spec(a, b) { Ok(z) => r == Ok::<OrderedFloat<f64>, EvalError>(OrderedFloat(z)), Err(e) => r == Err::<OrderedFloat<f64>, EvalError>(e) }
+{ unimplemented!() }
+impl vstd::std_specs::ops::DivSpecImpl<Number> for Number {
+    open spec fn obeys_div_spec() -> bool { false }
+    open spec fn div_req(self, rhs: Number) -> bool { true }
+    open spec fn div_spec(self, rhs: Number) -> Result<Number, EvalError> { arbitrary() }
+}
+// 9.1.3.1 integer rounding. Float arm: engine K (unit float_kernels, harness rnd_i_float); exact arms by reading (listed).
+pub uninterp spec fn floor_f(f: f64) -> int;     // floor of a finite double as a mathematical integer
+pub open spec fn normalised(x: Number) -> bool { is_int(x) && ((x is Fixnum) == in_fix(ival(x))) }
+#[verifier::external_body]
+pub fn rnd_i(n: &Number, arena: &mut Arena) -> (r: Result<Number, EvalError>)
+    ensures
+        is_int(*n) ==> (r matches Ok(x) && normalised(x) && ival(x) == ival(*n)),
+        n is Rational ==> (r matches Ok(x) && normalised(x) && ival(x) == q_floor(rval(*n))),
+        n is Float ==> (match classify_spec(flt(*n)) { Ok(f) => r matches Ok(x) && normalised(x) && ival(x) == floor_f(f), Err(e) => r == Err::<Number, EvalError>(e) }),
+{ unimplemented!() }
+// `f64::consts::E` is rewritten to this nullary shim (R5)
+#[verifier::external_body] pub fn f64_consts_e() -> (r: f64) ensures r == f_const_e() { unimplemented!() }
+
+#[verifier::external_body] pub struct Atom { _p: u64 }
+impl Clone for Atom { #[verifier::external_body] fn clone(&self) -> (r: Self) ensures r == *self { unimplemented!() } }
+impl Copy for Atom {}
+pub uninterp spec fn f_round(a: f64) -> f64;
+#[verifier::external_body] pub fn f64_round(f: f64) -> (r: f64) ensures r == f_round(f) { unimplemented!() }
